@@ -860,6 +860,27 @@ func ruleC12(c *Ctx) {
 		}
 	}
 	// (5) closing a connection reaches the unblock
+	unblock := unblockPoster(c)
+	if unblock == nil {
+		c.S.Undecided("R-C12-select", "close-unblocks", "-", "no clientState method posts to the unblock mailbox")
+	} else {
+		for _, name := range []string{"(*clientCxn).RequestClose", "(*clientCxn).onTerminate"} {
+			fn := c.Fn(name)
+			if fn == nil {
+				continue
+			}
+			key := name + ":reaches-unblock"
+			if c.M.Reach(fn)[unblock] {
+				c.S.OK("R-C12-select", key, c.Pos(fn.Pos()), "ends the connection's blocked command")
+			} else {
+				c.S.Bad("R-C12-select", key, c.Pos(fn.Pos()), fmt.Sprintf("%s never reaches %s: a blocked command of a closed or killed connection keeps waiting and later consumes an element nobody will receive", name, fnName(unblock)))
+			}
+		}
+	}
+}
+
+// unblockPoster: the clientState method that posts to the unblock mailbox (ends a blocked command from outside).
+func unblockPoster(c *Ctx) *ssa.Function {
 	var unblock *ssa.Function
 	for _, fn := range c.SrcFuncs() {
 		// a method of clientState, or a closure made inside one (the post may sit in a retry closure)
@@ -877,22 +898,7 @@ func ruleC12(c *Ctx) {
 			}
 		}
 	}
-	if unblock == nil {
-		c.S.Undecided("R-C12-select", "close-unblocks", "-", "no clientState method posts to the unblock mailbox")
-	} else {
-		for _, name := range []string{"(*clientCxn).RequestClose", "(*clientCxn).onTerminate"} {
-			fn := c.Fn(name)
-			if fn == nil {
-				continue
-			}
-			key := name + ":reaches-unblock"
-			if c.M.Reach(fn)[unblock] {
-				c.S.OK("R-C12-select", key, c.Pos(fn.Pos()), "ends the connection's blocked command")
-			} else {
-				c.S.Bad("R-C12-select", key, c.Pos(fn.Pos()), fmt.Sprintf("%s never reaches %s: a blocked command of a closed or killed connection keeps waiting and later consumes an element nobody will receive", name, fnName(unblock)))
-			}
-		}
-	}
+	return unblock
 }
 
 func derivesFromCall(v ssa.Value, fn *ssa.Function) bool {
